@@ -198,6 +198,7 @@ func c09R3(c *Ctx, r *Report) {
 		"mir/gen.(*functionBuilder).constArrayIndex":      "fixed-array index must be a compile-time constant (documented rule; known finding C04.R1 covers its flow-insensitivity)",
 		"mir/gen.(*functionBuilder).matchCaseValue":       "match case labels are constants",
 		"mir/gen.(*functionBuilder).lookupQualifiedConst": "module-level constants",
+		"mir/gen.(*functionBuilder).foldIntegerLiterals":  "C10.R7: expressions built from integer literals only; the selecting predicate admits no identifier",
 		"mir/gen.(*functionBuilder).lowerIndexValue":      "indexing an array *literal* with a constant index selects the element directly (D-04 family)",
 	}
 	n := 0
